@@ -3,6 +3,7 @@ import Driver.Shard
 import Driver.Routing
 import Driver.Tls
 import Driver.Acl
+import Driver.Translate
 /-
 Model driver: reads the op lines a harness engine wrote (first line `engine <name>`), runs the
 executable Lean model, prints one observation line per op line.  `/verif/check` diffs this
@@ -18,6 +19,7 @@ inductive St where
   | routing (d : Drv.Routing.DSt)
   | tls
   | acl
+  | translate
 
 def initSt (engine : String) : Option St :=
   match engine with
@@ -27,6 +29,7 @@ def initSt (engine : String) : Option St :=
   | "routing" => some (.routing {})
   | "tls" => some .tls
   | "acl" => some .acl
+  | "translate" => some .translate
   | _ => Option.none
 
 def stepSt (st : St) (line : String) : St × String :=
@@ -38,6 +41,7 @@ def stepSt (st : St) (line : String) : St × String :=
   | .routing d => let (d', o) := Drv.Routing.step d line; (.routing d', o)
   | .tls => (.tls, Drv.Tls.step line)
   | .acl => (.acl, Drv.Acl.step line)
+  | .translate => (.translate, Drv.Translate.step line)
 
 partial def loop (h : IO.FS.Stream) (out : IO.FS.Stream) (st : St) : IO Unit := do
   let line ← h.getLine
